@@ -131,7 +131,14 @@ pub fn gen_val(ty: &Ty, g: &mut Gen, cfg: &mut GenCfg) -> Val {
 			entries.dedup_by(|a, b| cmp_val(&a.0, &b.0) == std::cmp::Ordering::Equal);
 			Val::Map(entries)
 		},
-		Ty::Array(elem, n) => gen_elems(elem, *n, g, cfg),
+		Ty::Array(elem, n) => {
+			// arrays have a fixed arity whatever the budget says
+			let saved = cfg.budget;
+			cfg.budget = cfg.budget.max(*n);
+			let v = gen_elems(elem, *n, g, cfg);
+			cfg.budget = cfg.budget.min(saved);
+			v
+		},
 		Ty::Tuple(ts) => Val::Tuple(ts.iter().map(|t| gen_val(t, g, cfg)).collect()),
 		Ty::Str => {
 			let want = biased_len(g, 1, cfg.budget);
